@@ -442,6 +442,31 @@ def item_c08_checks(repo, out):
         rows.append(('else', getters[0] if getters else 'raise'))
         break
     out.append('Definition c08_getter_selection : list (string * string) := %s.' % _coq_pairs(rows))
+    # the keyword arguments handed to the selected getter: getter_kwargs[<key>] = <expr>; the dict must start empty
+    # and nothing else may touch it before it is splatted into _ArrayLikeGetter
+    init_kw = [n for n in gda.body if isinstance(n, ast.Assign) and ast.unparse(n.targets[0]) == 'getter_kwargs']
+    if len(init_kw) != 1 or ast.unparse(init_kw[0].value) != '{}':
+        raise TranslateError('%s: get_dask_array: `getter_kwargs = {}` not found' % CS)
+    kws = []
+    for n in ast.walk(gda):
+        if isinstance(n, ast.Assign) and isinstance(n.targets[0], ast.Subscript) \
+                and ast.unparse(n.targets[0].value) == 'getter_kwargs':
+            key = n.targets[0].slice
+            if not (isinstance(key, ast.Constant) and isinstance(key.value, str)):
+                raise TranslateError('%s: get_dask_array: getter_kwargs key %s' % (CS, ast.unparse(key)))
+            kws.append((key.value, ast.unparse(n.value)))
+    uses = [n for n in ast.walk(gda) if isinstance(n, ast.Name) and n.id == 'getter_kwargs']
+    if len(uses) != len(kws) + 2:     # the initialisation, one per key, the ** splat
+        raise TranslateError('%s: get_dask_array: getter_kwargs is used in an unexpected way' % CS)
+    out.append('Definition c08_getter_kwargs : list (string * string) := %s.' % _coq_pairs(kws))
+    # get_chunk_or_placeholder(..., dryrun=False): `if not dryrun:` guards the read
+    gp = _func(_class(tree, 'ChunkStore', CS), 'get_chunk_or_placeholder', CS)
+    dflt = [ast.unparse(d) for d in gp.args.defaults]
+    first = [st for st in gp.body if not (isinstance(st, ast.Expr) and isinstance(st.value, ast.Constant))][0]
+    if not (gp.args.args[-1].arg == 'dryrun' and dflt[-1:] == ['False'] and isinstance(first, ast.If)
+            and ast.unparse(first.test) == 'not dryrun' and not first.orelse):
+        raise TranslateError('%s: get_chunk_or_placeholder: dryrun protocol not recognised' % CS)
+    out.append('Definition c08_placeholder_reads_unless : string := %s.' % coq_string('dryrun'))
 
 
 def _flatten(stmts, depth, out, what):
